@@ -709,6 +709,9 @@ def path_facts(ctx):
     norm = []
     for cond, truth in out:
         c = strip(cond)
+        # a block used as a condition has the value of its tail (e.g. an inlined helper returning a bool)
+        while isinstance(c, dict) and c.get("k") == "Block" and c.get("e") is not None:
+            c = strip(c["e"])
         while isinstance(c, dict) and ((c.get("k") == "Unary" and c.get("op") == "Not") or (c.get("k") == "Call" and callee(c) == "core::ops::bit::Not::not")):
             c = strip(c["e"] if c.get("k") == "Unary" else c["args"][0])
             truth = not truth
